@@ -30,6 +30,8 @@ CONSTANTS Procs,        \* processes (factories)
           MaxOpFaults,  \* bound on injected faults per operation
           MaxRevokes,   \* bound on operator revocations
           CfgSet,       \* set of functions Procs -> [ik: {"none","session","shared"}, sk: BOOLEAN, sess: BOOLEAN]
+                        \* ("shared" = Policy.SharedIntermediateKeyCache; newSession consults only that flag, so the mode stands for
+                        \*  both values of Policy.CacheIntermediateKeys and the driver alternates them)
           OpKinds,      \* API calls explored: subset of {"Enc", "Dec", "CloseSession", "Restart"}
           Ticks,        \* clock increments the environment may choose
           MidOpTicks    \* TRUE: the clock may advance while operations are in flight
